@@ -665,22 +665,17 @@ def _local2synodic_triangular(point: TriangularPoint, local_coords: np.ndarray, 
 
     syn = np.empty(6, dtype=np.float64)
 
+    # The local frame is centred at the point and rotated by pi about the z-axis
+    # (the large primary sits at (1/2, sgn*sqrt(3)/2) in local coordinates).
     # Positions
-    syn[0] = c[0] - mu + 1 / 2 # X
-    syn[1] = c[1] + sgn * np.sqrt(3) / 2 # Y
+    syn[0] = 0.5 - mu - c[0]  # X
+    syn[1] = sgn * np.sqrt(3) / 2 - c[1]  # Y
     syn[2] = c[2]  # Z
 
-    # Local momenta to synodic velocities
-    vx = c[3] - sgn * np.sqrt(3) / 2
-    vy = c[4] - mu  + 1 / 2
-    vz = c[5]
-
-    syn[3] = vx  # Vx
-    syn[4] = vy  # Vy
-    syn[5] = vz  # Vz
-
-    # Flip X and Vx according to NASA/Szebehely convention (see standard relations)
-    syn[[0, 3]] *= -1.0
+    # Local canonical momenta to synodic velocities (xdot = px + y, ydot = py - x)
+    syn[3] = -(c[3] + c[1])  # Vx
+    syn[4] = -(c[4] - c[0])  # Vy
+    syn[5] = c[5]  # Vz
 
     return syn
 
@@ -730,14 +725,14 @@ def _synodic2local_triangular(point: TriangularPoint, synodic_coords: np.ndarray
     # Allocate output array
     local = np.empty(6, dtype=np.float64)
 
-    # Invert position mapping (forward transform shifted X by mu - 0.5 and flipped its sign)
-    local[0] = mu - 0.5 - s[0]  # x1
-    local[1] = s[1] - sgn * np.sqrt(3) / 2  # x2
+    # Invert position mapping
+    local[0] = 0.5 - mu - s[0]  # x1
+    local[1] = sgn * np.sqrt(3) / 2 - s[1]  # x2
     local[2] = s[2]  # x3 (Z)
 
-    # Invert velocity mapping (forward transform flipped Vx's sign and shifted Vy by mu - 0.5)
-    local[3] = sgn * np.sqrt(3) / 2 - s[3]  # px1 from Vx (with sign flip)
-    local[4] = s[4] + mu - 0.5  # px2 from Vy
+    # Invert velocity mapping
+    local[3] = -s[3] - local[1]  # px1 from Vx
+    local[4] = -s[4] + local[0]  # px2 from Vy
     local[5] = s[5]  # px3 from Vz
 
     return local
